@@ -463,6 +463,56 @@ fn c10_lead_text_before_block_tag() {
     core::mem::forget((r, t));
 }
 
+macro_rules! comment_marker_harness {
+    ($name:ident, $src:expr, $lm:expr, $rm:expr) => {
+        #[kani::proof]
+        #[kani::unwind(12)]
+        #[kani::stub(alloc::fmt::format, crate::verif_common::format_stub)]
+        fn $name() {
+            // $src = "{#" [left marker] [body] [right marker] "#}" ; followed by one symbolic byte and 'b'
+            let comment: &[u8] = $src;
+            let mut buf = [0u8; 12];
+            let mut n = 0;
+            while n < comment.len() {
+                buf[n] = comment[n];
+                n += 1;
+            }
+            let comment_end = n;
+            let next: u8 = kani::any();
+            kani::assume(next == b'\n' || next == b' ' || next == b'b');
+            buf[n] = next;
+            buf[n + 1] = b'b';
+            n += 2;
+            let s = unsafe { core::str::from_utf8_unchecked(&buf[..n]) };
+            let trim: bool = kani::any();
+            let mut t = tokenizer_on(s, 0, ws_cfg(true, kani::any(), trim));
+            // first step: finds the tag at offset 0 (no lead text)
+            let r1 = t.tokenize_root();
+            assert!(matches!(r1, Ok(ControlFlow::Continue(()))));
+            assert!(matches!(t.pending_start_marker, Some((StartMarker::Comment, l)) if l == if $lm == 0 { 2 } else { 3 }));
+            // second step: skips the comment
+            let r2 = t.tokenize_root();
+            assert!(matches!(r2, Ok(ControlFlow::Continue(()))));
+            let skipped_nl = $rm == 0 && trim && next == b'\n';
+            assert!(t.current_offset == comment_end + if skipped_nl { 1 } else { 0 });
+            assert!(t.trim_leading_whitespace == ($rm == 1));
+            kani::cover!(trim && next == b'\n');
+            kani::cover!(!trim && next == b'\n');
+            core::mem::forget((r1, r2, t));
+        }
+    };
+}
+
+// @verif-block props=C10 tier=quick cap=900 group=core doc=comment_tags_and_their_whitespace_markers_for_the_listed_tag_text_(left_marker,_body,_right_marker)_followed_by_a_symbolic_byte_(LF,_space_or_'b'),_under_EVERY_trim_blocks/lstrip_blocks_setting:_the_comment_is_skipped_exactly_up_to_"#}";_what_happens_after_it_depends_ONLY_on_the_right_marker_(the_left_one_never_leaks_to_the_right_side,_also_for_an_empty_body):_'-'_arms_whitespace_removal,_'+'_keeps_the_line_feed_even_under_trim_blocks,_no_marker_skips_exactly_one_line_feed_iff_trim_blocks
+comment_marker_harness!(c10_comment_empty_plain, b"{##}", 0, 0);
+comment_marker_harness!(c10_comment_empty_left_minus, b"{#-#}", 1, 0);
+comment_marker_harness!(c10_comment_empty_left_plus, b"{#+#}", 2, 0);
+comment_marker_harness!(c10_comment_empty_both_minus, b"{#--#}", 1, 1);
+comment_marker_harness!(c10_comment_body_right_minus, b"{# x-#}", 0, 1);
+comment_marker_harness!(c10_comment_body_right_plus, b"{#- x+#}", 1, 2);
+comment_marker_harness!(c10_comment_body_left_plus, b"{#+x#}", 2, 0); // tier=thorough
+// @verif-end
+
 #[cfg(test)]
 mod playback {
     use super::*;
